@@ -25,7 +25,7 @@ ResParts(rns, ids) == {<<FALSE, "", FALSE, 0>>} \cup {<<TRUE, r, FALSE, 0>> : r 
                       \cup {<<TRUE, r, TRUE, i>> : r \in rns, i \in ids}
 Mk(mp, rp) == Sp(mp[1], mp[2], mp[3], mp[4], rp[1], rp[2], rp[3], rp[4])
 One(ms, h, l, gv) == [mols |-> ms, ligs |-> <<[h |-> h, l |-> l]>>, given |-> gv]
-InitCase(rec) == case = rec /\ InDomain /\ Init0 /\ dev \in (IF AsIsToo /\ pl.chained THEN {DevOn, DevOn \cup {"Chain"}} ELSE {DevOn})
+InitCase(rec) == case = rec /\ Init0 /\ ~pl.self /\ dev \in (IF AsIsToo /\ pl.chained THEN {DevOn, DevOn \cup {"Chain"}} ELSE {DevOn})
 
 ListsUpTo(S, n) == UNION {[1..k -> S] : k \in 1..n}
 
@@ -88,12 +88,12 @@ Witness(f) == CASE f \in {"KeepNode", "NoCopyBack", "Order", "WildMismatch"} -> 
                 [] f = "PerMolCount" -> {C1(<<"H", "H", "L", "L">>, OHL)}
                 [] f = "Chain" -> {C2(<<"L", "H", "K">>, OHK, OKL), C2(<<"K", "H", "L">>, OKL, OHK),
                                    C2(<<"H", "K", "L">>, Opt(Mk(Name("H"), RnId("RA", 3)), Mk(Name("K"), Rn("KA"))), Opt(Mk(Name("K"), Rn("KB")), Mk(Name("L"), ANone)))}
-InitDev == \E f \in AllFlags : \E c \in Witness(f) : case = c /\ InDomain /\ Init0 /\ dev = {f}
+InitDev == \E f \in AllFlags : \E c \in Witness(f) : case = c /\ Init0 /\ ~pl.self /\ dev = {f}
 ExpCases == {C1(<<"H", "K">>, Opt(Mk(Name("H"), RnId("RA", 3)), Mk(Name("K"), Rn("KA")))),
              C1(<<"H", "L">>, Opt(Mk(Name("H"), Rn("RB")), Mk(Name("L"), Rn("LB")))),
              C2(<<"H", "L">>, OHL, Opt(Mk(Name("H"), RnId("RA", 1)), Mk(Name("L"), ANone))),
              C1(<<"H", "L">>, OHA)}
-InitExp == \E c \in ExpCases : case = c /\ InDomain /\ Init0 /\ dev = DevOn
+InitExp == \E c \in ExpCases : case = c /\ Init0 /\ ~pl.self /\ dev = DevOn
 
 InitQuick == FamA(3) \/ FamB \/ FamC \/ FamD \/ FamZ
 InitFull == FamA(4) \/ FamB \/ FamC \/ FamD \/ FamZ
